@@ -85,6 +85,7 @@ static void put_generated (vf_rng *r, pixman_format_code_t f, uint8_t *row, int 
 typedef struct { vf_buf buf; pixman_image_t *img; pixman_format_code_t fmt; int solid; uint8_t solid8[4]; int w;
                  int xo, yo;        /* offset of the request inside the image (shared-storage operands only; 0 otherwise) */
                  int borrowed;      /* the storage belongs to another operand */
+                 int xdiv;          /* 2: the image is read through a 2x enlarging NEAREST transform (request pixel x samples image pixel x/2); else 0 */
                  pixman_indexed_t *pal; /* palette of an indexed (c8/g8/c4/g4/g1) operand */ } operand_t;
 
 static void operand_free (operand_t *o) { if (o->img) pixman_image_unref (o->img); if (!o->solid && !o->borrowed) vf_buf_free (&o->buf); free (o->pal); memset (o, 0, sizeof *o); }
@@ -128,6 +129,7 @@ static void operand_px8 (const operand_t *o, int x, uint8_t p[4])
 {
     if (o->solid) { memcpy (p, o->solid8, 4); return; }
     if (o->w == 1) x = 0;
+    if (o->xdiv) x /= o->xdiv;
     if (o->pal) { uint32_t raw = vf_get_px (vf_buf_row (&o->buf, o->yo), o->buf.bpp, x + o->xo), c = o->pal->rgba[raw & ((1u << o->buf.bpp) - 1) & 0xff];
         p[0] = (uint8_t)(c >> 24); p[1] = (uint8_t)(c >> 16); p[2] = (uint8_t)(c >> 8); p[3] = (uint8_t)c; return; }
     rp_decode8 (o->fmt, vf_get_px (vf_buf_row (&o->buf, o->yo), o->buf.bpp, x + o->xo), p);
@@ -137,6 +139,7 @@ static void operand_pxf (const operand_t *o, int x, double p[4])
     if (o->solid) { for (int c = 0; c < 4; c++) p[c] = o->solid8[c] / 255.0; return; }
     if (o->w == 1) x = 0;
     if (o->pal) { uint8_t p8[4]; operand_px8 (o, x, p8); for (int c = 0; c < 4; c++) p[c] = p8[c] / 255.0; return; }
+    if (o->xdiv) x /= o->xdiv;
     rp_decodef_row (o->fmt, vf_buf_row (&o->buf, o->yo), x + o->xo, p);
 }
 
@@ -193,6 +196,9 @@ static void c01_case (long idx, vf_rng *r)
     if (!operand_make (&S, r, sf, n, skind, premult)) return;
     if (mode != RO_NOMASK) { if (!operand_make (&M, r, mf, n, mkind, 0)) { operand_free (&S); return; } if (mode == RO_CA) pixman_image_set_component_alpha (M.img, 1); }
     }
+    /* the source through an affine transform (2x enlargement, NEAREST): the general and the specialised affine fetchers skip pixels the mask makes
+     * irrelevant - with a component-alpha mask that is a per-channel matter */
+    if (!shared_pair && !S.solid && S.w > 1 && !exhaustive_alpha && vf_chance (r, 1, 5)) { pixman_transform_t t2; pixman_transform_init_identity (&t2); t2.matrix[0][0] = 0x8000; pixman_image_set_transform (S.img, &t2); S.xdiv = 2; vf_count ("transformed_sources", 1); }
     if (!operand_make (&D, r, df, n, 0, premult)) { operand_free (&S); if (mode != RO_NOMASK) operand_free (&M); return; }
     if (exhaustive_alpha) {
         /* all 256 source alphas in this row x destination alpha = case-derived value; colours from a 32x32 lattice */
